@@ -113,3 +113,105 @@ Lemma F22_rejected_after_fix :
   check_proof (fun x => x) w_verify_zero (fun _ => Some []) (fun _ => Ok [w_root_lockup])
     (fun _ => true) (fun _ => true) w_known (fun _ => ExErr) w_yes w_yes 300 0 w_proof = Err EOther.
 Proof. vm_compute. reflexivity. Qed.
+
+(** * A per-server cache "state-init text -> key" that is not keyed by the address
+      (seeded mutant C19-r2m2): the result of a call then depends on the earlier calls.
+      Model of that design and a 2-call history on which it differs from the stateless check:
+      the attacker logs in for his own address A = hash(S) with state-init S, then presents S
+      for the victim's address V, signed with his own key. *)
+Definition cache := list (bytes * bytes).
+Fixpoint cache_find (si : bytes) (c : cache) : option bytes :=
+  match c with
+  | [] => None
+  | (s, k) :: t => if beqb si s then Some k else cache_find si t
+  end.
+
+Section Cached.
+  Variable H : bytes -> bytes.
+  Variable verify : bytes -> bytes -> bytes -> bool.
+  Variable b64 : bytes -> option bytes.
+  Variable boc : bytes -> res (list cell).
+  Variable lib_ok ext_ok : cell -> bool.
+  Variable known : known_table.
+  Variable exec : Z * bytes -> exec_result.
+  Variable cp cd : bytes -> res bool.
+  Variable lifetime now : Z.
+
+  Definition wallet_key_cached (c : cache) (acc : Z * bytes) (si : bytes) : cache * res bytes :=
+    match get_wallet_pubkey (exec acc) with
+    | Some k => (c, Ok k)
+    | None =>
+        match si with
+        | [] => (c, Err EOther)
+        | _ =>
+            match cache_find si c with
+            | Some k => (c, Ok k)
+            | None =>
+                match compare_state_init boc (snd acc) si with
+                | Ok true =>
+                    match parse_state_init_key boc lib_ok ext_ok known si with
+                    | Ok k => ((si, k) :: c, Ok k)
+                    | Err e => (c, Err e)
+                    | Panic p => (c, Panic p)
+                    end
+                | Ok false => (c, Err EOther)
+                | Err e => (c, Err e)
+                | Panic p => (c, Panic p)
+                end
+            end
+        end
+    end.
+
+  Definition check_proof_cached (c : cache) (tp : proof) : cache * res bytes :=
+    match cp (p_payload tp) with
+    | Ok true =>
+        match convert b64 tp with
+        | Ok pm =>
+            if expired now (m_ts pm) lifetime then (c, Err EOther)
+            else match cd (m_domain pm) with
+                 | Ok true =>
+                     match parse_account_id (p_address tp) with
+                     | Ok acc =>
+                         let '(c', rk) := wallet_key_cached c acc (p_state_init tp) in
+                         (c', do k <- rk;
+                              do v <- ed_verify verify k (create_message H pm) (m_sig pm);
+                              if v then Ok k else Err EOther)
+                     | Err e => (c, Err e)
+                     | Panic p => (c, Panic p)
+                     end
+                 | Ok false => (c, Err EOther)
+                 | Err e => (c, Err e)
+                 | Panic p => (c, Panic p)
+                 end
+        | Err e => (c, Err e)
+        | Panic p => (c, Panic p)
+        end
+    | Ok false => (c, Err EOther)
+    | Err e => (c, Err e)
+    | Panic p => (c, Panic p)
+    end.
+End Cached.
+
+Definition w_attacker_key : bytes := repeat 255%N 32.      (* the 256 one-bits at offset 64 of w_data *)
+Definition w_known_v4 : known_table := [(w_code_hash, Some (mkLayout 64 false))].
+Definition w_verify_attacker : bytes -> bytes -> bytes -> bool := fun pk _ _ => beqb pk w_attacker_key.
+Definition w_victim_address : bytes := [48; 58]%N ++ repeat 50%N 64.   (* "0:2222...22" *)
+Definition w_login : proof := w_proof.                                  (* address 0:11..11 = hash of the state-init *)
+Definition w_forged : proof := mkProof w_victim_address 0 [] [] [] [1%N].
+
+Definition w_cached_step (c : cache) (tp : proof) : cache * res bytes :=
+  check_proof_cached (fun x => x) w_verify_attacker (fun _ => Some []) (fun _ => Ok [w_root_lockup])
+    (fun _ => true) (fun _ => true) w_known_v4 (fun _ => ExErr) w_yes w_yes 300 0 c tp.
+Definition w_stateless (tp : proof) : res bytes :=
+  check_proof (fun x => x) w_verify_attacker (fun _ => Some []) (fun _ => Ok [w_root_lockup])
+    (fun _ => true) (fun _ => true) w_known_v4 (fun _ => ExErr) w_yes w_yes 300 0 tp.
+
+(* alone, the forged proof is rejected by both; after the attacker's own login the cached
+   design accepts it with the attacker's key for the victim's address *)
+Lemma addressless_cache_refuted :
+  (snd (w_cached_step [] w_forged) = Err EOther) /\
+  (w_stateless w_forged = Err EOther) /\
+  (w_stateless w_login = Ok w_attacker_key) /\
+  (snd (run_history w_cached_step [] (w_login :: w_forged :: nil)) = (Ok w_attacker_key :: Ok w_attacker_key :: nil)) /\
+  (map w_stateless (w_login :: w_forged :: nil) = (Ok w_attacker_key :: Err EOther :: nil)).
+Proof. repeat split; vm_compute; reflexivity. Qed.
